@@ -1,8 +1,8 @@
 (* C03 — Leader completeness and the election restriction.
-   Only pinned statements; proofs live in M/RaftProofs.v.
-   Proved here: the election restriction, per step, for every state and message.
-   Not yet proved: leader completeness over executions (protocol-level invariant LC of
-   DESIGN.md 2.3); the evidence reports this property as partial. *)
+   Only pinned statements; proofs live in M/RaftProofs.v (the election restriction of
+   the model, per step, for every state and message) and in P/LogSafety.v (leader
+   completeness over every execution of the abstract log protocol P/Log.v, for a
+   fixed voter configuration in which no single node is a quorum). *)
 From RV Require Import Base.Prelude Base.IdSet M.Msg M.RaftLog M.Raft M.RaftProofs.
 Local Open Scope N_scope.
 
@@ -20,3 +20,45 @@ Theorem C03_vote_grant_restricted :
         ((last_index (r_log r) <? m_index m) || (r_priority r <=? get_priority m)%Z) = true.
 Proof. exact vote_grant_restricted. Qed.
 Print Assumptions C03_vote_grant_restricted.
+
+(* ------------------------------------------------------------------ *)
+(* Leader completeness for the abstract protocol P/Log.v (second part of the file:
+   the names of P/Log.v shadow those of the model from here on). *)
+From RV Require Import M.Quorum P.Election P.ElectionProofs P.Log P.LogProofs P.LogSafety.
+
+(* Every leader log of a term t >= T ([llog s t]: the log of the leader of t, empty
+   as long as t has no leader) contains, at the same indexes, the k entries of every
+   commit point (T, k) ever decided by the leader of T. *)
+Theorem C03_leader_completeness :
+  forall inc out, inc <> [] -> no_single_quorum inc out ->
+  forall s T k t, lreachable inc out s -> In (T, k) (cpts s) -> T <= t -> llog s t <> [] ->
+    (k <= length (llog s t))%nat /\ firstn k (llog s t) = firstn k (llog s T).
+Proof. exact leader_completeness. Qed.
+Print Assumptions C03_leader_completeness.
+
+(* the same read off the roles: a node in the leader role of a term >= T *)
+Theorem C03_leader_completeness_roles :
+  forall inc out, inc <> [] -> no_single_quorum inc out ->
+  forall s T k c, lreachable inc out s -> In (T, k) (cpts s) ->
+    p_role (nodes (el s) c) = PL -> T <= p_term (nodes (el s) c) ->
+    (k <= length (l_log (ln s c)))%nat /\ firstn k (l_log (ln s c)) = firstn k (llog s T).
+Proof. exact leader_completeness_roles. Qed.
+Print Assumptions C03_leader_completeness_roles.
+
+(* what a node reports committed is covered by a commit point, so every such leader
+   has every entry any node has ever reported committed *)
+Theorem C03_committed_entry_is_commit_point :
+  forall inc out, inc <> [] -> no_single_quorum inc out ->
+  forall s n j, lreachable inc out s -> (1 <= j)%nat -> (j <= l_commit (ln s n))%nat ->
+    exists T k, In (T, k) (cpts s) /\ (j <= k)%nat /\
+      nth_error (l_log (ln s n)) (j - 1) = nth_error (llog s T) (j - 1).
+Proof. exact committed_entry. Qed.
+Print Assumptions C03_committed_entry_is_commit_point.
+
+(* The election restriction of P is what the proof rests on: a vote is granted only
+   to a candidate whose campaign log is at least as up-to-date as the voter's log. *)
+Theorem C03_grant_restricted :
+  forall inc out n c t s s', lrule inc out (LEl (LGrant n c t)) s = Some s' ->
+    up_to_date (clog s c t) (l_log (ln s n)) = true.
+Proof. exact grant_restricted. Qed.
+Print Assumptions C03_grant_restricted.
